@@ -86,6 +86,10 @@ def fn_case(rng):
 
 
 def fn_leg(acc, srv, rng, n):
+    from ..core import dropped_groups
+    if "fn_guards" in dropped_groups():
+        acc.count("fn_leg_skipped_adapter_built_without_fn_guards")
+        return
     cases = [fn_case(rng) for _ in range(n)]
     reqs = [("assert_slippage_tolerance", [None if c[0] is None else str(c[0]), str(c[1]), str(c[2]), str(c[3]), str(c[4])])
             for c, _ in cases]
